@@ -98,10 +98,62 @@ ImplRead(i, off, len) ==
                    rc  == Min(cnt * i.s, need) - oic
                IN RunTokens(i, ty, c, oic, off, rc) \o ImplRead(i, off + rc, len - rc)
 
+\* ---- transcription for extended L2 entries (repaired code): get_subcluster_type, get_subcluster_range_type,
+\* ---- count_contiguous_subclusters and _yield_runs, cells = sub-clusters, S sub-clusters per cluster ----
+AllocBit(e, k) == e.t = "N" /\ e.sub[k + 1] = "A"        \* bit k of the low half of the bitmap
+ZeroBit(e, k)  == e.t \in {"N", "U"} /\ e.sub # <<>> /\ e.sub[k + 1] = "Z"
+ScType(e, k) == CASE e.t = "C" -> "COMP"
+                  [] e.t = "N" -> IF ZeroBit(e, k) THEN "ZERO_ALLOC" ELSE IF AllocBit(e, k) THEN "NORMAL" ELSE "UNALLOC_ALLOC"
+                  [] OTHER     -> IF ZeroBit(e, k) THEN "ZERO_PLAIN" ELSE "UNALLOC_PLAIN"
+\* count trailing ones / zeros of a predicate over bit positions from..S-1 (bits below `from` are forced by the mask)
+RECURSIVE CountWhile(_, _, _)
+CountWhile(Pred(_), k, s) == IF k < s /\ Pred(k) THEN 1 + CountWhile(Pred, k + 1, s) ELSE 0
+RangeCount(i, e, from) ==
+  LET ty == ScType(e, from) IN
+  CASE ty = "COMP" -> i.s - from
+    [] ty = "NORMAL" -> CountWhile(LAMBDA k : AllocBit(e, k), from, i.s)                       \* cto(bitmap | mask) - from
+    [] ty \in {"ZERO_ALLOC", "ZERO_PLAIN"} -> CountWhile(LAMBDA k : ZeroBit(e, k), from, i.s)   \* cto((bitmap >> 32) | mask) - from
+    [] OTHER -> CountWhile(LAMBDA k : ~AllocBit(e, k) /\ ~ZeroBit(e, k), from, i.s)             \* ctz((zero | alloc) & ~mask) - from
+CheckOffsetTypes == {"NORMAL", "ZERO_ALLOC", "UNALLOC_ALLOC"}
+\* loop of count_contiguous_subclusters from cluster c0 (iteration k), nb clusters at most
+RECURSIVE CountSub(_, _, _, _, _, _, _)
+CountSub(i, c0, k, nb, sc0, ty0, acc) ==
+  IF k >= nb THEN acc
+  ELSE LET e     == i.l2[c0 + k]
+           first == IF k = 0 THEN sc0 ELSE 0
+           ty    == ScType(e, first)
+           cnt   == RangeCount(i, e, first)
+       IN IF k = 0 /\ ty = "COMP" THEN cnt
+          ELSE IF k > 0 /\ ty # ty0 THEN acc
+          ELSE IF k > 0 /\ ty0 \in CheckOffsetTypes /\ e.h # i.l2[c0].h + k THEN acc
+          ELSE IF first + cnt < i.s THEN acc + cnt
+          ELSE CountSub(i, c0, k + 1, nb, sc0, IF k = 0 THEN ty ELSE ty0, acc + cnt)
+
+RECURSIVE ImplReadExt(_, _, _)
+ImplReadExt(i, off, len) ==
+  IF len <= 0 THEN <<>>
+  ELSE LET c    == off \div i.s
+           sc   == off % i.s
+           l2i  == c % i.l2n
+           need == Min(len + sc, (i.l2n - l2i) * i.s)
+       IN IF ~i.l1[c \div i.l2n]
+          THEN LET rc == need - sc IN [j \in 1..rc |-> Fall(i, off + j - 1)] \o ImplReadExt(i, off + rc, len - rc)
+          ELSE LET e   == i.l2[c]
+                   ty  == ScType(e, sc)
+                   nb  == CeilDiv(need, i.s)
+                   cnt == CountSub(i, c, 0, nb, sc, ty, 0)
+                   rc  == Min(cnt + sc, need) - sc
+                   part == CASE ty = "COMP" -> [j \in 1..rc |-> Comp(e.h, sc + j - 1)]
+                             [] ty \in {"ZERO_ALLOC", "ZERO_PLAIN"} -> [j \in 1..rc |-> Zero]
+                             [] ty = "NORMAL" -> [j \in 1..rc |-> Data(IF i.datafile THEN 1 ELSE 0, e.h * i.s + sc + j - 1)]
+                             [] OTHER -> [j \in 1..rc |-> Fall(i, off + j - 1)]
+               IN IF rc <= 0 THEN <<[k |-> "STUCK", f |-> 0, c |-> 0]>>      \* no progress: the real loop would never terminate
+                  ELSE part \o ImplReadExt(i, off + rc, len - rc)
+
 Init == /\ img \in Images
         /\ view = GuestView(img)
         /\ last = [op |-> "open", o |-> 0, n |-> 0, res |-> <<>>]
-Read(o, n) == /\ last' = [op |-> "read", o |-> o, n |-> n, res |-> IF img.ext THEN Slice(view, o, n) ELSE ImplRead(img, o, n)]
+Read(o, n) == /\ last' = [op |-> "read", o |-> o, n |-> n, res |-> IF img.ext THEN ImplReadExt(img, o, n) ELSE ImplRead(img, o, n)]
               /\ UNCHANGED <<img, view>>
 Next == \E o \in 0..img.size-1 : \E n \in 1..(img.size - o) : Read(o, n)
 NoNext == FALSE /\ UNCHANGED vars
